@@ -19,7 +19,7 @@ from ...bundle import (
 )
 from ...signal import PortDir, Signal, Visibility
 from ...instantiable import io
-from ..helpers.resolve_ref_types import update_ref_deps
+from ..helpers.resolve_ref_types import update_ref_deps, connected_ports
 
 # Import the base class
 from .base import ElabPass
@@ -192,7 +192,7 @@ class BundleFlattener(ElabPass):
             THE_CACHE.flat_bundle_ports[entry] = flat
 
         # Replace connections to any connected instances
-        for portref in list(bundle_inst._connected_ports):
+        for portref in connected_ports(bundle_inst):
             self.replace_bundle_conn(
                 inst=portref.inst, portname=portref.portname, flat=flat
             )
@@ -431,7 +431,7 @@ class BundleFlattener(ElabPass):
         bref.resolved = resolved = self.resolve_path(flat_root, Path(path))
 
         if isinstance(resolved, BundleScope):
-            for connected_port in list(bref._connected_ports):
+            for connected_port in connected_ports(bref):
                 self.replace_bundle_conn(
                     inst=connected_port.inst,
                     portname=connected_port.portname,
